@@ -206,86 +206,126 @@ type side struct {
 	raw   []bool
 }
 
-func execConv(o hx.Op) (res string) {
+type convRun struct {
+	seed uint64
+	A, B *side
+	outs []string
+}
+
+func newConvRun(seed uint64, fa, fb int) *convRun {
 	ka, kb := getKeys()
-	seed := o.U64("seed")
-	A := &side{c: &otr.Conversation{PrivateKey: ka, FragmentSize: o.Int("fa"), Rand: hx.NewRand(mix(seed, 100001))}}
-	B := &side{c: &otr.Conversation{PrivateKey: kb, FragmentSize: o.Int("fb"), Rand: hx.NewRand(mix(seed, 100002))}}
+	return &convRun{seed: seed,
+		A: &side{c: &otr.Conversation{PrivateKey: ka, FragmentSize: fa, Rand: hx.NewRand(mix(seed, 100001))}},
+		B: &side{c: &otr.Conversation{PrivateKey: kb, FragmentSize: fb, Rand: hx.NewRand(mix(seed, 100002))}}}
+}
+
+func (cr *convRun) pick(t string) (me, peer *side) {
+	if t[1] == 'a' {
+		return cr.A, cr.B
+	}
+	return cr.B, cr.A
+}
+
+func queue(peer *side, pieces [][]byte, raw bool) [][][]byte {
+	var ms [][][]byte
+	if raw {
+		ms = [][][]byte{pieces}
+	} else {
+		ms = group(pieces)
+	}
+	for _, m := range ms {
+		cp := make([][]byte, len(m))
+		for i := range m {
+			cp[i] = append([]byte(nil), m[i]...)
+		}
+		peer.inbox = append(peer.inbox, cp)
+		peer.raw = append(peer.raw, raw)
+	}
+	return ms
+}
+
+// step executes script token number i.
+func (cr *convRun) step(i int, tok string) {
+	f := strings.Split(tok, ".")
+	me, peer := cr.pick(f[0])
+	switch f[0][0] {
+	case 'q':
+		me.c.Rand = hx.NewRand(mix(cr.seed, i))
+		out, enc, ch, toSend, err := me.c.Receive([]byte("?OTRv2?"))
+		cr.outs = append(cr.outs, showRecv(me.c, out, enc, ch, toSend, err))
+		queue(peer, toSend, false)
+	case 'd':
+		if len(me.inbox) == 0 {
+			cr.outs = append(cr.outs, "-")
+			return
+		}
+		m := me.inbox[0]
+		me.inbox, me.raw = me.inbox[1:], me.raw[1:]
+		noise := ""
+		var last string
+		for j, piece := range m {
+			out, enc, ch, toSend, err := me.c.Receive(piece)
+			if j < len(m)-1 {
+				if out != nil || enc || ch != 0 || toSend != nil || err != nil {
+					noise = "/fragnoise"
+				}
+				continue
+			}
+			last = showRecv(me.c, out, enc, ch, toSend, err)
+			queue(peer, toSend, false)
+		}
+		cr.outs = append(cr.outs, last+noise)
+	case 's':
+		raw := !me.c.IsEncrypted()
+		toSend, err := me.c.Send(hx.UnHex(f[1]))
+		ms := queue(peer, toSend, raw && err == nil)
+		cr.outs = append(cr.outs, fmt.Sprintf("api/%s/%s/%s", b01(err != nil), showTypes(ms, raw), b01(me.c.IsEncrypted())))
+	case 'e':
+		toSend := me.c.End()
+		ms := queue(peer, toSend, false)
+		cr.outs = append(cr.outs, fmt.Sprintf("api/0/%s/%s", showTypes(ms, false), b01(me.c.IsEncrypted())))
+	case 'm':
+		toSend, err := me.c.Authenticate(string(hx.UnHex(f[1])), hx.UnHex(f[2]))
+		ms := queue(peer, toSend, false)
+		cr.outs = append(cr.outs, fmt.Sprintf("api/%s/%s/%s", b01(err != nil), showTypes(ms, false), b01(me.c.IsEncrypted())))
+	default:
+		panic("harness: bad token " + tok)
+	}
+}
+
+func execConv(o hx.Op) (res string) {
+	cr := newConvRun(o.U64("seed"), o.Int("fa"), o.Int("fb"))
+	defer func() {
+		if e := recover(); e != nil {
+			res = strings.Join(append(cr.outs, "panic"), ",")
+		}
+	}()
+	for i, tok := range strings.Split(o.Str("script"), ",") {
+		cr.step(i, tok)
+	}
+	return strings.Join(cr.outs, ",")
+}
+
+// execMut: run the script, then deliver the given (mutated) pieces to one side instead of the
+// message that is next in flight to it.
+func execMut(o hx.Op) (res string) {
+	cr := newConvRun(o.U64("seed"), o.Int("fa"), o.Int("fb"))
 	var outs []string
 	defer func() {
 		if e := recover(); e != nil {
 			res = strings.Join(append(outs, "panic"), ",")
 		}
 	}()
-	pick := func(t string) (me, peer *side) {
-		if t[1] == 'a' {
-			return A, B
-		}
-		return B, A
-	}
-	queue := func(peer *side, pieces [][]byte, raw bool) [][][]byte {
-		var ms [][][]byte
-		if raw {
-			ms = [][][]byte{pieces}
-		} else {
-			ms = group(pieces)
-		}
-		for _, m := range ms {
-			cp := make([][]byte, len(m))
-			for i := range m {
-				cp[i] = append([]byte(nil), m[i]...)
-			}
-			peer.inbox = append(peer.inbox, cp)
-			peer.raw = append(peer.raw, raw)
-		}
-		return ms
-	}
 	for i, tok := range strings.Split(o.Str("script"), ",") {
-		f := strings.Split(tok, ".")
-		me, peer := pick(f[0])
-		switch f[0][0] {
-		case 'q':
-			me.c.Rand = hx.NewRand(mix(seed, i))
-			out, enc, ch, toSend, err := me.c.Receive([]byte("?OTRv2?"))
-			outs = append(outs, showRecv(me.c, out, enc, ch, toSend, err))
-			queue(peer, toSend, false)
-		case 'd':
-			if len(me.inbox) == 0 {
-				outs = append(outs, "-")
-				continue
-			}
-			m := me.inbox[0]
-			me.inbox, me.raw = me.inbox[1:], me.raw[1:]
-			noise := ""
-			var last string
-			for j, piece := range m {
-				out, enc, ch, toSend, err := me.c.Receive(piece)
-				if j < len(m)-1 {
-					if out != nil || enc || ch != 0 || toSend != nil || err != nil {
-						noise = "/fragnoise"
-					}
-					continue
-				}
-				last = showRecv(me.c, out, enc, ch, toSend, err)
-				queue(peer, toSend, false)
-			}
-			outs = append(outs, last+noise)
-		case 's':
-			raw := !me.c.IsEncrypted()
-			toSend, err := me.c.Send(hx.UnHex(f[1]))
-			ms := queue(peer, toSend, raw && err == nil)
-			outs = append(outs, fmt.Sprintf("api/%s/%s/%s", b01(err != nil), showTypes(ms, raw), b01(me.c.IsEncrypted())))
-		case 'e':
-			toSend := me.c.End()
-			ms := queue(peer, toSend, false)
-			outs = append(outs, fmt.Sprintf("api/0/%s/%s", showTypes(ms, false), b01(me.c.IsEncrypted())))
-		case 'm':
-			toSend, err := me.c.Authenticate(string(hx.UnHex(f[1])), hx.UnHex(f[2]))
-			ms := queue(peer, toSend, false)
-			outs = append(outs, fmt.Sprintf("api/%s/%s/%s", b01(err != nil), showTypes(ms, false), b01(me.c.IsEncrypted())))
-		default:
-			panic("harness: bad token " + tok)
-		}
+		cr.step(i, tok)
+	}
+	me := cr.A
+	if o.Str("to") == "b" {
+		me = cr.B
+	}
+	for _, piece := range unHexList(o.Str("in")) {
+		out, enc, ch, toSend, err := me.c.Receive(piece)
+		outs = append(outs, showRecv(me.c, out, enc, ch, toSend, err))
 	}
 	return strings.Join(outs, ",")
 }
@@ -301,6 +341,8 @@ func exec(line string) string {
 		return execRecv(o)
 	case "conv":
 		return execConv(o)
+	case "mut":
+		return execMut(o)
 	}
 	return "bad-op"
 }
@@ -782,11 +824,198 @@ func genConv(g *hx.Gen, n int) {
 	}
 }
 
+// ---- byte mutations of every message a real conversation puts on the wire
+
+func joinText(m [][]byte) []byte { // reassembled wire text of a message (independent reader)
+	if len(m) == 1 && !bytes.HasPrefix(m[0], []byte("?OTR,")) {
+		return m[0]
+	}
+	var text []byte
+	for _, p := range m {
+		f := strings.SplitN(string(p[5:]), ",", 3)
+		if len(f) == 3 && strings.HasSuffix(f[2], ",") {
+			text = append(text, f[2][:len(f[2])-1]...)
+		}
+	}
+	return text
+}
+
+// refragment cuts text at the same piece sizes as the original message.
+func refragment(m [][]byte, text []byte) [][]byte {
+	if len(m) == 1 && !bytes.HasPrefix(m[0], []byte("?OTR,")) {
+		return [][]byte{text}
+	}
+	var out [][]byte
+	for k, p := range m {
+		f := strings.SplitN(string(p[5:]), ",", 3)
+		n := len(f[2]) - 1
+		if n > len(text) || k == len(m)-1 {
+			n = len(text)
+		}
+		out = append(out, []byte(fmt.Sprintf("?OTR,%d,%d,%s,", k+1, len(m), text[:n])))
+		text = text[n:]
+	}
+	return out
+}
+
+func mutate(g *hx.Gen, r *hx.Rand, m [][]byte, raw bool) [][]byte {
+	cp := make([][]byte, len(m))
+	for i := range m {
+		cp[i] = append([]byte(nil), m[i]...)
+	}
+	text := joinText(m)
+	framed := !raw && bytes.HasPrefix(text, []byte("?OTR:")) && len(text) > 6
+	k := r.Intn(12)
+	if !framed && k >= 5 {
+		k = r.Intn(5)
+	}
+	switch k {
+	case 0: // any byte of any piece
+		j := r.Intn(len(cp))
+		if len(cp[j]) > 0 {
+			cp[j][r.Intn(len(cp[j]))] = byte(r.Intn(256))
+		}
+		g.Stat("mut.wire-byte")
+	case 1: // a base64-alphabet character
+		j := r.Intn(len(cp))
+		if len(cp[j]) > 0 {
+			cp[j][r.Intn(len(cp[j]))] = b64a[r.Intn(len(b64a))]
+		}
+		g.Stat("mut.wire-b64char")
+	case 2: // delete / insert a byte
+		j := r.Intn(len(cp))
+		if len(cp[j]) > 0 {
+			at := r.Intn(len(cp[j]))
+			if r.Bool() {
+				cp[j] = append(cp[j][:at], cp[j][at+1:]...)
+			} else {
+				cp[j] = append(cp[j][:at], append([]byte{"A=\n,.?"[r.Intn(6)]}, cp[j][at:]...)...)
+			}
+		}
+		g.Stat("mut.wire-indel")
+	case 3: // piece order / loss / duplication
+		switch r.Intn(3) {
+		case 0:
+			hx.Shuffle(r, cp)
+		case 1:
+			j := r.Intn(len(cp))
+			cp = append(cp[:j], cp[j+1:]...)
+		default:
+			j := r.Intn(len(cp))
+			cp = append(cp[:j+1], cp[j:]...)
+		}
+		g.Stat("mut.pieces")
+	case 4: // the last character of the text (the final '.', or base64 padding bits)
+		t := append([]byte(nil), text...)
+		if len(t) > 2 {
+			t[len(t)-1-r.Intn(3)] = b64a[r.Intn(len(b64a))]
+		}
+		cp = refragment(m, t)
+		g.Stat("mut.tail")
+	default: // a byte of the decoded message, re-encoded and re-fragmented
+		dec, err := base64.StdEncoding.DecodeString(string(text[5 : len(text)-1]))
+		if err != nil || len(dec) == 0 {
+			return cp
+		}
+		at := r.Intn(len(dec))
+		switch r.Intn(6) {
+		case 0:
+			at = r.Intn(min(len(dec), 4)) // version / type / flags
+		case 1:
+			at = r.Intn(min(len(dec), 16)) // header, key ids, first length
+		case 2:
+			at = len(dec) - 1 - r.Intn(min(len(dec), 28)) // MAC / old MAC keys
+		}
+		old := dec[at]
+		switch r.Intn(3) {
+		case 0:
+			dec[at] ^= 1 << r.Intn(8)
+		case 1:
+			dec[at] = byte(r.Intn(256))
+		default:
+			dec[at]++
+		}
+		if dec[at] == old {
+			dec[at] ^= 0x80
+		}
+		if r.Chance(1, 10) {
+			dec = dec[:r.Intn(len(dec))]
+		}
+		cp = refragment(m, frame(dec))
+		g.Stat("mut.decoded-byte")
+	}
+	return cp
+}
+
+func genMut(g *hx.Gen, n int) {
+	r := g.R
+	emitted := 0
+	for emitted < n {
+		seed := r.U64()
+		fa, fb := hx.Pick(r, fragSizes), hx.Pick(r, fragSizes)
+		if r.Chance(1, 2) {
+			fa, fb = 0, 0
+		}
+		cr := newConvRun(seed, fa, fb)
+		var toks []string
+		ab := func() string { return r.PickStr("a", "b") }
+		var plan []string
+		add := func(t ...string) { plan = append(plan, t...) }
+		qd := func(s string) string { return "q" + s } // digest filled in when the position is known
+		switch r.Intn(3) {
+		case 0:
+			add(qd("a"))
+		case 1:
+			add(qd("b"))
+		default:
+			add(qd("a"), qd("b"))
+		}
+		for j := 0; j < 6; j++ {
+			add("da", "db")
+		}
+		for k := r.Range(1, 4); k > 0; k-- {
+			add(fmt.Sprintf("s%s.%s", ab(), hx.Hex(userText(g, r))), "d"+ab())
+		}
+		add("da", "db", "da", "db")
+		if r.Chance(1, 4) {
+			s := ab()
+			o := map[string]string{"a": "b", "b": "a"}[s]
+			sec := hx.Hex(r.Bytes(4))
+			add("m"+s+".-."+sec, "d"+o, "m"+o+".-."+sec, "d"+s, "d"+o, "d"+s)
+			g.Stat("mut.with-smp")
+		}
+		if r.Chance(1, 4) {
+			add("e"+ab(), "da", "db")
+		}
+		for _, t := range plan {
+			if t[0] == 'q' {
+				t = fmt.Sprintf("%s.%s", t, hx.Hex(commitDigest(mix(seed, len(toks)))))
+			}
+			if t[0] == 'd' {
+				me, _ := cr.pick(t)
+				if len(me.inbox) > 0 && emitted < n {
+					m, raw := me.inbox[0], me.raw[0]
+					orig := joinText(m)
+					for k := r.Range(2, 5); k > 0; k-- {
+						g.Emit("mut seed=%d fa=%d fb=%d script=%s to=%s orig=%s in=%s", seed, fa, fb,
+							strings.Join(toks, ","), t[1:2], hx.Hex(orig), hexList(mutate(g, r, m, raw)))
+						g.Stat("mut.type-" + typeOf(m, raw))
+						emitted++
+					}
+				}
+			}
+			cr.step(len(toks), t)
+			toks = append(toks, t)
+		}
+	}
+}
+
 func gen(g *hx.Gen) {
-	genEnc(g, g.Count(1500, 60000))
-	genFrag(g, g.Count(3000, 150000))
-	genRecv(g, g.Count(4000, 200000))
-	genConv(g, g.Count(300, 10000))
+	genEnc(g, g.Count(1000, 60000))
+	genFrag(g, g.Count(1500, 150000))
+	genRecv(g, g.Count(2500, 200000))
+	genConv(g, g.Count(120, 8000))
+	genMut(g, g.Count(800, 200000))
 }
 
 func main() { hx.Main(hx.Harness{Gen: gen, Exec: exec}) }
